@@ -27,6 +27,7 @@ Put(s, n, e) == [s EXCEPT !.envs = [x \in DOMAIN s.envs \cup {n} |-> IF x = n TH
 
 Judge(s, e) ==
   CASE e.ev = "Created"   -> CreatedJudge(e.e)
+    [] e.ev = "Stored"    -> "ok"
     [] e.ev = "Ref"       -> RefJudge(e)
     [] e.ev = "Embed"     -> EmbedJudge(e)
     [] e.ev = "ChildBind" -> (IF ~Has(s, e.child) THEN "UnknownArtifact" ELSE ChildBindJudge(e.pre, s.envs[e.child]))
@@ -41,6 +42,7 @@ Judge(s, e) ==
 
 Effect(s, e) ==
   CASE e.ev = "Created" -> Put(s, e.name, e.e)
+    [] e.ev = "Stored"  -> Put(s, e.name, e.e)
     [] e.ev = "Sign"    -> (IF e.written THEN Put(s, e.out, e.e) ELSE s)
     [] OTHER            -> s
 
